@@ -1,251 +1,357 @@
-(** The executable property checker of Corr/C16.v (the one evaluated on the implementation's
-    observations) is sound for the model: on the model's own trace it never reports a failure. *)
-From Coq Require Import ZArith List Bool Lia ZifyBool String.
-From PV Require Import Attribute.Attribute Proofs.AttributeProofs Corr.CorrBase Corr.C16.
+(** The executable property checker of Corr/C16.v ([prop_core]: the five core tags) never fails
+    on the model's own observations, for histories that stay inside declared, collision-free
+    universes of accounts and names.  Hence a "prop:" failure of those tags on the real code is
+    a behaviour the model cannot show. *)
+From Coq Require Import ZArith NArith List Bool String Ascii Lia ZifyBool.
+From PV Require Import Name.Name Proofs.NameProofs Proofs.AttrNameKeyProofs.
+From PV Require Import Attribute.Attribute Proofs.AttributeProofs Corr.C16.
 Import ListNotations.
+Open Scope list_scope.
 Open Scope Z_scope.
 
 Lemma tag_true : forall b s, b = true -> tag b s = [].
 Proof. intros b s ->. reflexivity. Qed.
 
-Lemma In_insert_rec : forall x r l, In x (insert_rec r l) <-> x = r \/ In x l.
-Proof.
-  intros x r l. induction l as [|y t IH]; cbn [insert_rec].
-  - cbn. intuition.
-  - destruct (key_ltb (okey r) (okey y)); cbn [In]; [intuition|]. rewrite IH. intuition.
-Qed.
-
-Lemma In_sort_recs : forall x l, In x (sort_recs l) <-> In x l.
-Proof.
-  intros x l. induction l as [|y t IH]; cbn [sort_recs fold_right]; [tauto|].
-  fold (sort_recs t). rewrite In_insert_rec, IH. cbn [In]. intuition.
-Qed.
-
+(** * the model's observation *)
 Lemma okey_orec_of : forall r, okey (orec_of r) = akey r.
 Proof. reflexivity. Qed.
 
-Lemma In_obs_recs : forall accts names s ok x,
-  In x (o_recs (model_obs accts names s ok)) <-> exists r, In r (s_recs s) /\ x = orec_of r.
+Lemma In_obs_recs : forall cfg accts names s ok q x,
+  In x (o_recs (model_obs cfg accts names s ok q)) <-> exists r, In r (s_recs s) /\ x = orec_of r.
 Proof.
-  intros. cbn [model_obs o_recs]. rewrite In_sort_recs, in_map_iff. split; intros [r [H1 H2]]; exists r; auto.
+  intros. cbn [model_obs o_recs]. rewrite in_map_iff. split; intros [r [H1 H2]]; exists r; auto.
 Qed.
 
-Lemma has_key_model : forall accts names s ok k,
-  has_key (model_obs accts names s ok) k = true <-> exists r, In r (s_recs s) /\ akey r = k.
+Lemma has_key_model : forall cfg accts names s ok q k,
+  has_key (model_obs cfg accts names s ok q) k = true <-> exists r, In r (s_recs s) /\ akey r = k.
 Proof.
   intros. unfold has_key. rewrite existsb_exists. split.
-  - intros [x [Hx Hk]]. apply In_obs_recs in Hx. destruct Hx as [r [Hr ->]].
-    exists r. split; auto. apply key_eqb_eq in Hk. exact Hk.
-  - intros [r [Hr Hk]]. exists (orec_of r). split; [apply In_obs_recs; eauto|].
-    apply key_eqb_eq. rewrite okey_orec_of. exact Hk.
+  - intros [x [Hx Hk]]. apply In_obs_recs in Hx. destruct Hx as [r [Hr ->]]. exists r. split; [exact Hr|].
+    apply key_eqb_eq in Hk. exact Hk.
+  - intros [r [Hr Hk]]. exists (orec_of r). split; [apply In_obs_recs; exists r; auto|].
+    rewrite okey_orec_of. apply key_eqb_eq. exact Hk.
 Qed.
 
-Lemma nth_index_map : forall {B} (f : Z -> B) (d : B) n names,
-  In n names -> nth (index_of n names) (map f names) d = f n.
+Lemma find_obs_map : forall {B} (f : string -> B) names n,
+  In n names -> find_obs names (map f names) n = Some (f n).
 Proof.
-  intros B f d n names. induction names as [|y t IH]; intros Hin; [destruct Hin|].
-  cbn [index_of map]. destruct (n =? y) eqn:E.
-  - apply Z.eqb_eq in E. subst. reflexivity.
-  - cbn [nth]. apply IH. destruct Hin as [->|H]; [rewrite Z.eqb_refl in E; discriminate|exact H].
+  intros B f names n. induction names as [|m t IH]; intros H; [destruct H|]. cbn [map find_obs].
+  destruct (String.eqb_spec m n) as [->|Hne]; [reflexivity|]. apply IH. destruct H as [H|H]; [contradiction|exact H].
 Qed.
 
-Lemma owner_in_model : forall accts names s ok n,
-  In n names -> owner_in names (model_obs accts names s ok) n = s_owner s n.
-Proof. intros. unfold owner_in. cbn [model_obs o_owners]. apply nth_index_map. exact H. Qed.
-
-Lemma holders_in_model : forall accts names s ok n,
-  In n names -> holders_in names (model_obs accts names s ok) n = accounts_by_attribute s n accts.
+Lemma owner_in_model : forall cfg accts names s ok q n,
+  In n names -> owner_in names (model_obs cfg accts names s ok q) n = owner_of s n.
 Proof.
-  intros. unfold holders_in. cbn [model_obs o_accts].
-  apply (nth_index_map (fun n => accounts_by_attribute s n accts)). exact H.
+  intros cfg accts names s ok q n H. unfold owner_in, owner_of. cbn [model_obs o_owners]. unfold model_owners.
+  rewrite (find_obs_map _ names n H). destruct (get_record idh (s_names s) n) as [nr|]; reflexivity.
 Qed.
 
-Lemma is_owner_model : forall accts names s ok n c,
-  In n names -> s_owner s n = Some c -> is_owner names (model_obs accts names s ok) n c = true.
+Lemma is_owner_model : forall cfg accts names s ok q n c,
+  In n names -> owner_of s n = Some c -> is_owner names (model_obs cfg accts names s ok q) n c = true.
 Proof.
-  intros. unfold is_owner. rewrite owner_in_model by assumption. apply oz_eqb_eq. assumption.
+  intros cfg accts names s ok q n c H E. unfold is_owner. rewrite (owner_in_model _ _ _ _ _ _ _ H), E.
+  apply N.eqb_refl.
 Qed.
 
-Lemma mem_In : forall x l, mem x l = true <-> In x l.
+Lemma holders_in_model : forall cfg accts names s ok q n,
+  In n names -> holders_in names (model_obs cfg accts names s ok q) n = accounts_by_attribute s n accts.
 Proof.
-  intros. unfold mem. rewrite existsb_exists. split.
-  - intros [y [Hy E]]. apply Z.eqb_eq in E. subst. exact Hy.
-  - intros H. exists x. split; auto. apply Z.eqb_refl.
+  intros cfg accts names s ok q n H. unfold holders_in. cbn [model_obs o_accts].
+  rewrite (find_obs_map _ names n H). reflexivity.
 Qed.
 
-(** names an operation mentions *)
-Definition op_name (o : op) : option Z :=
-  match o with
-  | OBind n _ | OModifyName _ n _ | ODeleteName _ n | OAdd _ _ n _ _ _ _ | OUpdate _ _ n _ _ _ _ _
-  | OUpdateExp _ _ n _ _ _ | ODelete _ _ n _ | ODeleteDistinct _ _ n _ _ | OPurge _ n => Some n
-  | OBlock _ => None
-  end.
+Lemma memN_In : forall x l, memN x l = true <-> In x l.
+Proof.
+  intros x l. unfold memN. rewrite existsb_exists. split.
+  - intros [y [Hy E]]. apply N.eqb_eq in E. subst. exact Hy.
+  - intros H. exists x. split; [exact H|apply N.eqb_refl].
+Qed.
 
-Definition in_universe (accts names : list Z) (s : state) : Prop :=
-  forall r, In r (s_recs s) -> In (a_name r) names /\ In (a_acct r) accts.
-
+(** * reflexivity of the comparisons *)
 Lemma list_eqb_refl : forall {A} (eqb : A -> A -> bool) l,
   (forall x, eqb x x = true) -> list_eqb eqb l l = true.
-Proof. intros A eqb l H. induction l; cbn; [reflexivity|]. rewrite H, IHl. reflexivity. Qed.
+Proof. intros A eqb l H. induction l as [|x t IH]; cbn; [reflexivity|rewrite H, IH; reflexivity]. Qed.
 
 Lemma oz_eqb_refl : forall x, oz_eqb x x = true.
-Proof. intros. apply oz_eqb_eq. reflexivity. Qed.
+Proof. intros [a|]; cbn; [apply Z.eqb_refl|reflexivity]. Qed.
 
 Lemma orec_eqb_refl : forall x, orec_eqb x x = true.
-Proof. intros [[[[a n] v] t] e]. cbn. rewrite !Z.eqb_refl, oz_eqb_refl. reflexivity. Qed.
-
-Lemma obs_same_model : forall accts names s b1 b2,
-  obs_same (model_obs accts names s b1) (model_obs accts names s b2) = true.
 Proof.
-  intros. unfold obs_same. cbn [model_obs o_recs o_accts o_owners].
-  rewrite !list_eqb_refl; auto using orec_eqb_refl, oz_eqb_refl, Z.eqb_refl.
-  intros x. apply list_eqb_refl. apply Z.eqb_refl.
+  intros [[[[a n] v] t] e]. cbn. rewrite N.eqb_refl, String.eqb_refl, !Z.eqb_refl, oz_eqb_refl. reflexivity.
 Qed.
 
-Theorem checker_holds_on_model : forall accts names s o b,
-  inv s ->
-  in_universe accts names s -> in_universe accts names (fst (step s o)) ->
-  (forall n, op_name o = Some n -> In n names) ->
-  prop_step names (model_obs accts names s b) (s_now s) o
-            (model_obs accts names (fst (step s o)) (snd (step s o))) = [].
+Lemma nrec_eqb_refl : forall x, nrec_eqb x x = true.
+Proof. intros [[n a] r]. cbn. rewrite String.eqb_refl, N.eqb_refl. destruct r; reflexivity. Qed.
+
+Lemma obs_same_model : forall cfg accts names s b1 b2 q1 q2,
+  obs_same (model_obs cfg accts names s b1 q1) (model_obs cfg accts names s b2 q2) = true.
 Proof.
-  intros accts names s o b Hinv Hu Hu' Hon.
-  pose proof (step_inv s o Hinv) as Hinv'.
-  unfold prop_step.
-  rewrite !tag_true; [reflexivity| | | | |].
-  - (* rejected changes nothing *)
-    cbn [model_obs o_ok]. unfold step. destruct (exec s o); cbn [fst snd]; [reflexivity|].
-    apply obs_same_model.
-  - (* expired gone *)
-    unfold p_expired_gone. destruct o; auto. destruct (dt <? 0) eqn:D; auto.
-    apply forallb_forall. intros x Hx. apply In_obs_recs in Hx. destruct Hx as [r [Hr ->]].
-    change (oexp (orec_of r)) with (a_exp r). destruct (a_exp r) as [e|] eqn:He; auto.
-    destruct (e <? s_now s + dt) eqn:L; [|reflexivity]. cbn [negb orb].
-    apply negb_true_iff. destruct (has_key _ (okey (orec_of r))) eqn:K; auto.
-    apply has_key_model in K. destruct K as [r' [Hr' Hk]]. exfalso.
-    apply (expired_gone_step s r e dt Hinv Hr He ltac:(lia) ltac:(lia) r' Hr'). exact Hk.
-  - (* lookup *)
-    unfold p_lookup. apply forallb_forall. intros x Hx. apply In_obs_recs in Hx.
-    destruct Hx as [r [Hr ->]]. cbn [orec_of]. destruct (Hu' r Hr) as [Hn Ha].
-    apply mem_In. rewrite holders_in_model by exact Hn. apply lookup_lists_holder; auto.
-  - (* disappears *)
-    unfold p_disappears. apply forallb_forall. intros x Hx. apply In_obs_recs in Hx.
-    destruct Hx as [r [Hr ->]].
-    destruct (has_key (model_obs accts names (fst (step s o)) (snd (step s o))) (okey (orec_of r))) eqn:K;
-      [reflexivity|]. cbn [orb].
-    assert (Ha : absent r (fst (step s o))).
-    { intros r' Hr' Ek. assert (E : has_key (model_obs accts names (fst (step s o)) (snd (step s o))) (akey r) = true)
-        by (apply has_key_model; eauto). rewrite okey_orec_of in K. congruence. }
-    pose proof (disappears_step s o r Hinv Hr Ha) as J.
-    assert (Hok : snd (step s o) = true).
-    { unfold step in *. destruct (exec s o); [reflexivity|]. exfalso. apply (Ha r Hr). reflexivity. }
-    cbn [model_obs o_ok]. rewrite Hok. cbn [andb].
-    destruct (Hu r Hr) as [Hrn _].
-    unfold justified. cbn [orec_of]. destruct o; cbn [AttributeProofs.justified] in J; try contradiction.
-    + destruct J as [J1 J2]. subst. rewrite Z.eqb_refl. apply is_owner_model; auto.
-    + destruct J as [J1 J2]. inversion J1; subst. rewrite !Z.eqb_refl. apply is_owner_model; auto.
-    + destruct J as [J1 [J2 J3]]. subst. rewrite !Z.eqb_refl. apply is_owner_model; auto.
-    + destruct J as [J1 [J2 [J3 J4]]]. subst. rewrite !Z.eqb_refl. apply is_owner_model; auto.
-    + destruct J as [J1 J2]. subst. rewrite Z.eqb_refl. apply is_owner_model; auto.
-    + destruct J as [e [J1 J2]]. rewrite J1. lia.
-  - (* only owner *)
-    unfold p_only_owner. cbn [model_obs o_ok]. destruct (snd (step s o)) eqn:Hok; [|reflexivity].
-    pose proof (only_owner_step s o Hinv Hok) as W.
-    destruct o; cbn [writer writes_as_owner] in *; auto;
-      try (apply is_owner_model; [apply Hon; reflexivity|exact W]).
-    destruct W as [W|[W _]].
-    + rewrite is_owner_model; [reflexivity|apply Hon; reflexivity|exact W].
-    + apply orb_true_iff. right. rewrite owner_in_model by (apply Hon; reflexivity). rewrite W. reflexivity.
+  intros. unfold obs_same, recs_same, accts_same. cbn [model_obs o_recs o_accts o_owners o_maxlen].
+  rewrite !list_eqb_refl, Z.eqb_refl; try reflexivity.
+  - intros [x|]; cbn; [apply nrec_eqb_refl|reflexivity].
+  - intros x. apply list_eqb_refl. apply N.eqb_refl.
+  - apply orec_eqb_refl.
 Qed.
 
-(** The universes are respected by histories whose operations stay inside them. *)
-Definition op_ok (accts names : list Z) (o : op) : Prop :=
+(** * universes *)
+Definition op_ok (cfg : config) (accts : list N) (names : list string) (o : op) : Prop :=
+  op_in cfg names o /\
   match o with
-  | OAdd _ a n _ _ _ _ | OUpdate _ a n _ _ _ _ _ => In a accts /\ In n names
-  | OBind n _ | OModifyName _ n _ | ODeleteName _ n | OUpdateExp _ _ n _ _ _
-  | ODelete _ _ n _ | ODeleteDistinct _ _ n _ _ | OPurge _ n => In n names
-  | OBlock _ => True
+  | OAdd _ a _ _ _ _ | OUpdate _ a _ _ _ _ _ | OSetAccountData _ a _ => In a accts
+  | _ => True
   end.
 
-Lemma op_ok_name : forall accts names o n, op_ok accts names o -> op_name o = Some n -> In n names.
-Proof. intros accts names o n H E. destruct o; cbn in *; inversion E; subst; tauto. Qed.
+Definition in_univ (accts : list N) (s : state) : Prop := forall r, In r (s_recs s) -> In (a_acct r) accts.
 
-Lemma universe_step : forall accts names s o,
-  inv s -> in_universe accts names s -> op_ok accts names o -> in_universe accts names (fst (step s o)).
+Lemma exec_in_univ : forall cfg accts names s o s',
+  inv_core s -> op_ok cfg accts names o -> in_univ accts s -> exec cfg s o = Some s' -> in_univ accts s'.
 Proof.
-  intros accts names s o [Hc Hn] Hu Hok. unfold step. destruct (exec s o) as [s'|] eqn:E; cbn [fst]; [|exact Hu].
-  destruct o; cbn [exec op_ok] in *.
-  - destruct (name_exists s n); inversion E; subst. exact Hu.
-  - destruct (s_owner s n) as [cur|]; [|discriminate].
-    destruct ((auth =? gov) || (auth =? cur)); inversion E; subst. exact Hu.
-  - destruct (resolves s n c); [|discriminate]. unfold purge_attribute in E.
-    destruct (may_remove _ c n); [|discriminate]. injection E as <-.
-    pose proof (del_filter false
-                (fun r => (a_name r =? n) && (0 <? s_cnt (set_owner s (upd_owner (s_owner s) n None)) n (a_acct r)))
-                (set_owner s (upd_owner (s_owner s) n None))
-                (inv_core_set_owner _ _ Hc)) as I. cbn zeta in I.
-    cbn [set_owner s_recs s_cnt s_owner] in I. destruct I as [_ [I2 _]].
-    intros r Hr. apply I2 in Hr. apply Hu. tauto.
-  - unfold set_attribute in E. match type of E with (if ?b then _ else _) = _ => destruct b end;
-      inversion E; subst. intros r. cbn [put set_store s_recs]. intros [<-|Hr].
-    + cbn. tauto.
-    + apply In_remove_key in Hr. apply Hu. tauto.
-  - unfold update_attribute in E. match type of E with (if ?b then _ else _) = _ => destruct b end;
-      [|discriminate].
-    destruct (sp_inner sp); [discriminate|].
-    destruct (find_rec (a, n, ov) (s_recs s)) as [cur|]; [|discriminate].
-    destruct (a_type cur =? oty); inversion E; subst.
-    intros r. cbn [put del_rec set_store s_recs]. intros [<-|Hr].
-    + cbn. tauto.
-    + apply In_remove_key in Hr. destruct Hr as [Hr _]. apply In_remove_key in Hr. apply Hu. tauto.
-  - unfold update_expiration in E. match type of E with (if ?b then _ else _) = _ => destruct b end;
-      [|discriminate].
-    destruct (find_rec (a, n, v) (s_recs s)) as [cur|] eqn:F; inversion E; subst.
-    apply find_rec_some in F. destruct F as [Hcur _].
-    intros r. cbn [set_store s_recs]. intros [<-|Hr].
-    + apply (Hu cur Hcur).
-    + apply In_remove_key in Hr. apply Hu. tauto.
-  - unfold delete_attribute in E. destruct (may_remove_raw s c n sp); [|discriminate].
-    match type of E with context [filter ?p (s_recs s)] =>
-      destruct (del_filter true p s Hc) as [_ [I2 _]]; destruct (filter p (s_recs s)) end;
-      [discriminate|]. injection E as <-. cbn [fold_left] in I2.
-    intros r Hr. apply I2 in Hr. apply Hu. tauto.
-  - unfold delete_attribute in E. destruct (may_remove_raw s c n sp); [|discriminate].
-    match type of E with context [filter ?p (s_recs s)] =>
-      destruct (del_filter true p s Hc) as [_ [I2 _]]; destruct (filter p (s_recs s)) end;
-      [discriminate|]. injection E as <-. cbn [fold_left] in I2.
-    intros r Hr. apply I2 in Hr. apply Hu. tauto.
-  - unfold purge_attribute in E. destruct (may_remove s c n); [|discriminate]. injection E as <-.
-    match goal with |- context [filter ?p (s_recs s)] =>
-      destruct (del_filter false p s Hc) as [_ [I2 _]] end.
-    intros r Hr. apply I2 in Hr. apply Hu. tauto.
-  - destruct (dt <? 0); inversion E; subst. unfold sweep.
-    destruct (sweep_fold (due (s_now (set_now s (s_now s + dt))) (s_queue (set_now s (s_now s + dt))))
-                (set_now s (s_now s + dt)) (inv_core_set_now _ _ Hc)) as [_ [I2 _]].
+  intros cfg accts names s o s' Hc [_ Ho] Hu E. destruct o; cbn [exec] in E.
+  - destruct (bind _ _ _ _ _ _ _ _); [|discriminate]. injection E as <-. exact Hu.
+  - destruct (modify _ _ _ _ _ _ _); [|discriminate]. injection E as <-. exact Hu.
+  - destruct (delete _ _ _ _ _) as [ns|]; [|discriminate]. destruct (norm cfg name); [|discriminate].
+    destruct (purge_removes _ _ _ _ _ (inv_core_set_names s ns Hc) E) as [_ [_ [_ I3]]].
+    intros r Hr. apply I3 in Hr. apply Hu. tauto.
+  - destruct (set_attribute_spec _ _ _ _ _ _ _ _ _ E) as [n [_ [_ [_ ->]]]].
+    intros r Hr. apply In_put in Hr. destruct Hr as [->|Hr]; [exact Ho|apply Hu; exact Hr].
+  - destruct (update_attribute_spec _ _ _ _ _ _ _ _ _ _ E) as [n [cur [_ [_ [_ [_ [_ ->]]]]]]].
+    intros r Hr. apply In_put in Hr. destruct Hr as [->|Hr]; [exact Ho|].
+    cbn [del_rec set_store s_recs] in Hr. apply In_remove_key in Hr. apply Hu. tauto.
+  - destruct (update_expiration_spec _ _ _ _ _ _ _ _ E) as [n [cur [_ [_ [_ [Hcur [_ ->]]]]]]].
+    intros r Hr. cbn [set_store s_recs] in Hr. destruct Hr as [<-|Hr]; [exact (Hu cur Hcur)|].
+    apply In_remove_key in Hr. apply Hu. tauto.
+  - apply delete_msg_spec in E. destruct (delete_k_removes _ _ _ _ _ _ _ Hc E) as [_ [_ I3]].
+    intros r Hr. apply I3 in Hr. apply Hu. tauto.
+  - apply delete_msg_spec in E. destruct (delete_k_removes _ _ _ _ _ _ _ Hc E) as [_ [_ I3]].
+    intros r Hr. apply I3 in Hr. apply Hu. tauto.
+  - destruct (purge_removes _ _ _ _ _ Hc E) as [_ [_ [_ I3]]].
+    intros r Hr. apply I3 in Hr. apply Hu. tauto.
+  - destruct (set_account_data_spec _ _ _ _ _ _ E) as [s1 [Hd Hs]].
+    assert (Hu1 : in_univ accts s1).
+    { destruct Hd as [->|Hd]; [exact Hu|]. destruct (delete_k_removes _ _ _ _ _ _ _ Hc Hd) as [_ [_ I3]].
+      intros r Hr. apply I3 in Hr. apply Hu. tauto. }
+    destruct Hs as [->|Hs]; [exact Hu1|].
+    destruct (set_attribute_spec _ _ _ _ _ _ _ _ _ Hs) as [n [_ [_ [_ ->]]]].
+    intros r Hr. apply In_put in Hr. destruct Hr as [->|Hr]; [exact Ho|apply Hu1; exact Hr].
+  - destruct (N.eqb auth gov); [|discriminate]. injection E as <-. exact Hu.
+  - destruct (dt <? 0); [discriminate|]. injection E as <-.
+    destruct (sweep_facts cfg limit (set_now s (s_now s + dt)) (inv_core_set_now _ _ Hc)) as [_ [I2 _]].
     intros r Hr. apply I2 in Hr. apply Hu. exact Hr.
 Qed.
 
-Lemma universe_run_from : forall accts names ops s,
-  inv s -> in_universe accts names s -> Forall (op_ok accts names) ops ->
-  in_universe accts names (run_from s ops).
+(** * counting for the cut-off sweep *)
+Lemma filter_map_length : forall {A B} (f : A -> B) (p : B -> bool) l,
+  List.length (filter p (map f l)) = List.length (filter (fun x => p (f x)) l).
 Proof.
-  intros accts names ops. induction ops as [|o t IH]; intros s Hi Hu Hf; cbn [run_from fold_left]; [exact Hu|].
-  inversion Hf; subst. apply IH; auto using step_inv, universe_step.
+  intros A B f p l. induction l as [|x t IH]; cbn [map filter]; [reflexivity|].
+  destruct (p (f x)); cbn [List.length]; rewrite IH; reflexivity.
 Qed.
 
-(** The executable checker used on the implementation's observations never fails on the model's
-    own trace, for every history and next operation that stay inside the declared universes. *)
-Theorem checker_holds_on_model_histories : forall t0 have accts names ops o b,
-  Forall (op_ok accts names) ops -> op_ok accts names o ->
-  let s := run t0 have ops in
-  prop_step names (model_obs accts names s b) (s_now s) o
-            (model_obs accts names (fst (step s o)) (snd (step s o))) = [].
+Lemma expired_at_orec : forall t r, expired_at t (orec_of r) = expired t r.
+Proof. reflexivity. Qed.
+
+Lemma filter_length_le_incl : forall (p q : attr -> bool) l l',
+  NoDup (map akey l) -> (forall r, In r l -> p r = true -> In r l' /\ q r = true) ->
+  NoDup (map akey l') ->
+  (List.length (filter p l) <= List.length (filter q l'))%nat.
 Proof.
-  intros t0 have accts names ops o b Hf Ho s.
-  assert (Hi : inv s) by apply run_inv.
-  assert (Hu : in_universe accts names s).
-  { apply universe_run_from; auto. split; [apply inv_core_init|]; intros r []. intros r []. }
+  intros p q l l' Hnd H Hnd'. apply NoDup_incl_length.
+  - assert (G : NoDup (map akey (filter p l))) by (apply NoDup_map_filter; exact Hnd).
+    clear - G. induction (filter p l) as [|x t IH]; [constructor|]. cbn [map] in G.
+    inversion G as [|? ? Hn Hd]; subst. constructor; [|apply IH; exact Hd].
+    intros Hin. apply Hn. apply in_map. exact Hin.
+  - intros r Hr. apply filter_In in Hr. destruct Hr as [Hr Hp]. apply filter_In. apply H; assumption.
+Qed.
+
+(** * the checker on one step of the model *)
+Section Step.
+  Variable cfg : config.
+  Variable accts : list N.
+  Variable names : list string.
+  Hypothesis Hcf : coll_free names.
+
+  Lemma p_only_owner_model : forall s o b q q',
+    inv0 cfg s -> inv1 names s -> op_ok cfg accts names o ->
+    p_only_owner (c_params cfg) names (model_obs cfg accts names s b q) o
+      (model_obs cfg accts names (fst (step cfg s o)) (snd (step cfg s o)) q') = true.
+  Proof.
+    intros s o b q q' Hi0 Hi1 [Hin _]. unfold p_only_owner. cbn [model_obs o_ok].
+    destruct (snd (step cfg s o)) eqn:Hok; [|reflexivity].
+    pose proof (only_owner_step cfg names s o Hcf Hin Hi0 Hi1 Hok) as W.
+    destruct o; cbn [writes_as_owner op_in] in *; try reflexivity;
+      try (destruct W as [n [En Ho]]; unfold norm in En; rewrite En;
+           apply is_owner_model; [apply Hin; exact En|exact Ho]).
+    - (* purge *)
+      unfold normalised. destruct (normalize (c_params cfg) name) as [n|] eqn:En; [|reflexivity].
+      destruct (String.eqb_spec n name) as [->|]; [|reflexivity].
+      assert (HU : In name names) by (apply Hin; exact En).
+      destruct (W En) as [Ho|[Hnone _]].
+      + rewrite (is_owner_model _ _ _ _ _ _ _ _ HU Ho). reflexivity.
+      + apply orb_true_iff. right. unfold unowned, in_universe. apply andb_true_iff. split.
+        * apply existsb_exists. exists name. split; [exact HU|apply String.eqb_refl].
+        * cbn [model_obs o_owners]. unfold model_owners. rewrite (find_obs_map _ names name HU), Hnone. reflexivity.
+    - (* account data *)
+      destruct W as [Ho|Es].
+      + rewrite (is_owner_model _ _ _ _ _ _ _ _ Hin Ho). reflexivity.
+      + rewrite Es. apply orb_true_iff. right. fold (model_obs cfg accts names s true q'). apply obs_same_model.
+  Qed.
+
+  Lemma absent_of_no_key : forall s ok q r,
+    has_key (model_obs cfg accts names s ok q) (akey r) = false -> absent r s.
+  Proof.
+    intros s ok q r H r' Hr' E. assert (has_key (model_obs cfg accts names s ok q) (akey r) = true).
+    { apply has_key_model. exists r'. auto. } congruence.
+  Qed.
+
+  Lemma p_disappears_model : forall s o b q q',
+    inv0 cfg s -> inv1 names s -> op_ok cfg accts names o ->
+    p_disappears (c_params cfg) names (model_obs cfg accts names s b q) (s_now s) o
+      (model_obs cfg accts names (fst (step cfg s o)) (snd (step cfg s o)) q') = true.
+  Proof.
+    intros s o b q q' Hi0 Hi1 [Hin _]. unfold p_disappears. apply forallb_forall. intros x Hx.
+    apply In_obs_recs in Hx. destruct Hx as [r [Hr ->]]. rewrite okey_orec_of.
+    destruct (has_key _ (akey r)) eqn:HK; [reflexivity|]. cbn [orb].
+    pose proof (absent_of_no_key _ _ _ _ HK) as Ha.
+    assert (Hok : snd (step cfg s o) = true).
+    { destruct (snd (step cfg s o)) eqn:Hok; [reflexivity|]. exfalso.
+      unfold step in Ha, Hok. destruct (exec cfg s o); [discriminate|]. cbn [fst] in Ha.
+      exact (present_not_absent _ _ Hr Ha). }
+    cbn [model_obs o_ok]. rewrite Hok. cbn [andb].
+    pose proof (disappears_step cfg names s o r Hcf Hin Hi0 Hi1 Hr Ha) as J.
+    pose proof (normal_fixed cfg s r (i_normal _ _ Hi0) Hr) as Hfix. unfold norm in Hfix.
+    assert (HU : In (a_name r) names) by (apply Hi1; exact Hr).
+    unfold C16.justified, orec_of.
+    destruct o; cbn [AttributeProofs.justified] in J; try contradiction.
+    - (* delete name *)
+      destruct J as [En Ho]. unfold norm in En. rewrite En, String.eqb_refl. cbn [andb].
+      apply is_owner_model; assumption.
+    - (* update *)
+      destruct J as [Hk [En Ho]]. unfold akey in Hk. injection Hk as Ha' _ Hv. unfold norm in En.
+      rewrite Ha', En, Hv, N.eqb_refl, String.eqb_refl, Z.eqb_refl. cbn [andb].
+      apply is_owner_model; assumption.
+    - (* delete *)
+      destruct J as [Ha' [En Ho]]. subst name. rewrite Ha', Hfix, N.eqb_refl, String.eqb_refl. cbn [andb].
+      apply is_owner_model; assumption.
+    - (* delete distinct *)
+      destruct J as [Ha' [En [Hv Ho]]]. subst name. rewrite Ha', Hfix, Hv, N.eqb_refl, String.eqb_refl, Z.eqb_refl.
+      cbn [andb]. apply is_owner_model; assumption.
+    - (* purge *)
+      destruct J as [Ek J]. unfold normalised.
+      destruct (normalize (c_params cfg) name) as [n|] eqn:En; [|rewrite Ek; apply String.eqb_refl].
+      destruct (String.eqb_spec n name) as [->|]; [|rewrite Ek; apply String.eqb_refl].
+      destruct (J En) as [<- Ho]. rewrite String.eqb_refl. cbn [andb]. apply is_owner_model; assumption.
+    - (* account data *)
+      destruct J as [Ha' [En Ho]]. rewrite Ha', En, N.eqb_refl, String.eqb_refl. cbn [andb].
+      apply is_owner_model; [rewrite <- En; exact HU|exact Ho].
+    - (* block *)
+      destruct J as [e [He Hlt]]. rewrite He. lia.
+  Qed.
+
+  Lemma p_lookup_model : forall s ok q,
+    inv_core s -> inv1 names s -> in_univ accts s ->
+    p_lookup names (model_obs cfg accts names s ok q) = true.
+  Proof.
+    intros s ok q Hc Hi1 Hu. unfold p_lookup. apply forallb_forall. intros x Hx.
+    apply In_obs_recs in Hx. destruct Hx as [r [Hr ->]]. cbn [orec_of oacct oname].
+    rewrite holders_in_model by (apply Hi1; exact Hr). apply memN_In.
+    apply lookup_lists_holder; [exact Hc|exact Hr|apply Hu; exact Hr].
+  Qed.
+
+  Lemma p_expired_gone_model : forall s o b q q',
+    inv_core s ->
+    p_expired_gone (model_obs cfg accts names s b q) (s_now s) o
+      (model_obs cfg accts names (fst (step cfg s o)) (snd (step cfg s o)) q') = true.
+  Proof.
+    intros s o b q q' Hc. unfold p_expired_gone. destruct o; try reflexivity.
+    destruct (dt <? 0) eqn:D; [reflexivity|].
+    set (t := s_now s + dt). set (s' := fst (step cfg s (OBlock dt limit))).
+    cbn [model_obs o_recs].
+    assert (Hlen : Z.of_nat (List.length (filter (expired_at t) (map orec_of (s_recs s)))) = ecount t s).
+    { unfold ecount. rewrite filter_map_length. reflexivity. }
+    rewrite Hlen.
+    assert (Hgone : forall r, In r (s_recs s) -> expired t r = true -> absent r s' ->
+                    has_key (model_obs cfg accts names s' (snd (step cfg s (OBlock dt limit))) q') (okey (orec_of r)) = false).
+    { intros r Hr He Ha. rewrite okey_orec_of.
+      destruct (has_key _ (akey r)) eqn:HK; [|reflexivity]. apply has_key_model in HK.
+      destruct HK as [r' [Hr' Ek]]. exfalso. exact (Ha r' Hr' Ek). }
+    assert (Hall : (forall r, In r (s_recs s) -> expired t r = true -> absent r s') ->
+              filter (fun r0 => has_key (model_obs cfg accts names s' (snd (step cfg s (OBlock dt limit))) q') (okey r0))
+                     (filter (expired_at t) (map orec_of (s_recs s))) = []).
+    { intros H. apply filter_none. intros x Hx. apply filter_In in Hx. destruct Hx as [Hx He].
+      apply in_map_iff in Hx. destruct Hx as [r [<- Hr]]. apply Hgone; auto. }
+    destruct ((limit =? 0) || (ecount t s <=? limit)) eqn:B.
+    - rewrite Hall; [reflexivity|]. intros r Hr He.
+      unfold expired in He. destruct (a_exp r) as [e|] eqn:Ee; [|discriminate].
+      apply orb_true_iff in B.
+      apply (expired_gone_step cfg s r e dt limit Hc Hr Ee); [lia|unfold t in He; lia|].
+      destruct B as [B|B]; [left|right]; unfold t in B; lia.
+    - destruct (sweep_progress_step cfg s dt limit Hc ltac:(lia)) as [H|[Hl H]].
+      + rewrite (Hall H). cbn [List.length]. lia.
+      + fold t in H. fold s' in H.
+        match goal with |- context [List.length (filter ?f (filter ?g ?l))] =>
+          assert (Hle : Z.of_nat (List.length (filter f (filter g l))) <= ecount t s') end.
+        { unfold ecount.
+          destruct (block_step_facts cfg s dt limit Hc) as [Hc' Hsub]. fold s' in Hc', Hsub.
+          set (present := fun r => has_key (model_obs cfg accts names s' (snd (step cfg s (OBlock dt limit))) q') (akey r)).
+          assert (E1 : forall l, List.length (filter (fun r0 => has_key (model_obs cfg accts names s' (snd (step cfg s (OBlock dt limit))) q') (okey r0))
+                                 (filter (expired_at t) (map orec_of l)))
+                       = List.length (filter (fun r => present r && expired t r) l)).
+          { induction l as [|x l IH]; [reflexivity|]. cbn [map filter].
+            rewrite expired_at_orec. destruct (expired t x).
+            - cbn [filter]. rewrite okey_orec_of. unfold present at 1. rewrite andb_true_r.
+              destruct (has_key _ (akey x)); cbn [List.length]; rewrite IH; reflexivity.
+            - rewrite andb_false_r. exact IH. }
+          rewrite E1. apply Nat2Z.inj_le. apply filter_length_le_incl; [apply Hc| |apply Hc'].
+          intros r Hr Hp. apply andb_true_iff in Hp. destruct Hp as [Hp He]. unfold present in Hp.
+          apply has_key_model in Hp. destruct Hp as [r' [Hr' Ek]].
+          assert (r' = r) by (apply (NoDup_key_unique (s_recs s)); [apply Hc|apply Hsub; exact Hr'|exact Hr|exact Ek]).
+          subst r'. split; [exact Hr'|exact He]. }
+        lia.
+  Qed.
+
+  Theorem checker_holds_on_model : forall s o b q q',
+    inv0 cfg s -> inv1 names s -> in_univ accts s -> op_ok cfg accts names o ->
+    prop_core (c_params cfg) names (model_obs cfg accts names s b q) (s_now s) o
+              (model_obs cfg accts names (fst (step cfg s o)) (snd (step cfg s o)) q') = [].
+  Proof.
+    intros s o b q q' Hi0 Hi1 Hu Hok. unfold prop_core.
+    rewrite (tag_true _ _ (p_only_owner_model s o b q q' Hi0 Hi1 Hok)).
+    rewrite (tag_true _ _ (p_disappears_model s o b q q' Hi0 Hi1 Hok)).
+    rewrite (tag_true _ _ (p_expired_gone_model s o b q q' (i_core _ _ Hi0))).
+    assert (Hi0' : inv0 cfg (fst (step cfg s o))) by (apply step_inv0; exact Hi0).
+    assert (Hi1' : inv1 names (fst (step cfg s o))) by (apply step_inv1; auto; apply Hok).
+    assert (Hu' : in_univ accts (fst (step cfg s o))).
+    { unfold step. destruct (exec cfg s o) eqn:E; cbn [fst]; [|exact Hu].
+      eapply exec_in_univ; eauto. apply Hi0. }
+    rewrite (tag_true _ _ (p_lookup_model _ _ q' (i_core _ _ Hi0') Hi1' Hu')).
+    cbn [app]. apply tag_true. cbn [model_obs o_ok].
+    destruct (snd (step cfg s o)) eqn:Hs; [reflexivity|]. cbn [orb].
+    assert (fst (step cfg s o) = s) as ->.
+    { unfold step in *. destruct (exec cfg s o); [discriminate|reflexivity]. }
+    apply obs_same_model.
+  Qed.
+End Step.
+
+(** * over histories *)
+Lemma in_univ_run_from : forall cfg accts names ops s,
+  inv0 cfg s -> in_univ accts s -> Forall (op_ok cfg accts names) ops -> in_univ accts (run_from cfg s ops).
+Proof.
+  intros cfg accts names ops. induction ops as [|o t IH]; intros s Hi Hu Hops; cbn [run_from fold_left]; [exact Hu|].
+  inversion Hops as [|? ? Ho Ht]; subst. apply IH; [apply step_inv0; exact Hi| |exact Ht].
+  unfold step. destruct (exec cfg s o) eqn:E; cbn [fst]; [|exact Hu]. eapply exec_in_univ; eauto. apply Hi.
+Qed.
+
+Theorem checker_holds_on_model_histories : forall cfg accts names t0 ops o b q q',
+  coll_freeb names = true -> genesis_inb cfg names = true ->
+  Forall (op_ok cfg accts names) ops -> op_ok cfg accts names o ->
+  let s := run cfg t0 ops in
+  prop_core (c_params cfg) names (model_obs cfg accts names s b q) (s_now s) o
+            (model_obs cfg accts names (fst (step cfg s o)) (snd (step cfg s o)) q') = [].
+Proof.
+  intros cfg accts names t0 ops o b q q' Hcf Hg Hops Ho s.
+  apply coll_freeb_sound in Hcf. apply genesis_inb_sound in Hg.
   apply checker_holds_on_model; auto.
-  - apply universe_step; auto.
-  - intros n. apply (op_ok_name accts names o n Ho).
+  - apply run_inv0.
+  - apply run_inv1; auto. eapply Forall_impl; [|exact Hops]. intros x [H _]. exact H.
+  - apply (in_univ_run_from cfg accts names); auto; [apply inv0_init|intros r []].
 Qed.
